@@ -40,6 +40,10 @@ mod spin {
             pub(crate) fn lock(&self) -> loom::sync::MutexGuard<'_, T> {
                 self.0.lock().unwrap()
             }
+            #[allow(dead_code)]
+            pub(crate) fn try_lock(&self) -> Option<loom::sync::MutexGuard<'_, T>> {
+                self.0.try_lock().ok()
+            }
         }
     }
 }
